@@ -6,6 +6,12 @@ Also: operations that are rejected leave the disk untouched (`head_change_guarde
 namespace Rangers.Proofs.ChainStore
 open Rangers.Model.ChainStore
 
+theorem Out.of_alive {P : Disk → Mem → Prop} {R : Disk → Prop} {s : St} (h : Out P R s) (ha : s.crashed = false) :
+    P s.disk s.mem := by
+  rcases h with ⟨_, p⟩ | ⟨d, _⟩
+  · exact p
+  · rw [ha] at d; cases d
+
 /-- alive and not scheduled to die -/
 def Safe (s : St) : Prop := s.crashed = false ∧ s.budget = none
 
